@@ -440,7 +440,7 @@ def run_program(ctx, W, p):
             ctx.count('head_requests')
         if no_body:
             ctx.count('no_body_statuses')
-        own_cl = bool(p.get('own_cl')) and p['kind'] in PLAIN_BODY and ref['err'] is None and ref['status'] == p['status'] and p['hooks'] in ('none', 'two_two')
+        own_cl = bool(p.get('own_cl')) and p['kind'] in PLAIN_BODY and ref['err'] is None and ref['status'] == code_of(p['status']) and p['hooks'] in ('none', 'two_two')
         fr = check_framing(r, p['method'], framework_set_length=not own_cl)
         ctx.count('content_length_checked')
         if fr:
